@@ -92,7 +92,17 @@ def check_filter_greedy(ctx, rule: str):
     cw = [n for n in walk_no_nested(fq.node) if isinstance(n, ast.Assign) and unparse(n.targets[0]) == "corr_with_better_features"]
     ok = ok and len(cw) == 1 and "X_corr.loc[:feature, feature]" in unparse(cw[0].value)
     drop = [c for c in calls(fq, "drop") if "X_corr" in unparse(c.func.value)]
-    ok = ok and len(drop) == 2
+    # the dropped feature leaves both the rows and the columns: .drop(f, axis=0).drop(f, axis=1) or .drop(index=f, columns=f)
+    axes = set()
+    for c in drop:
+        ax = kwarg(c, "axis")
+        if c.args and ax is not None and const_value(ax) in (0, 1, "index", "columns"):
+            axes.add("rows" if const_value(ax) in (0, "index") else "cols")
+        if kwarg(c, "index") is not None:
+            axes.add("rows")
+        if kwarg(c, "columns") is not None:
+            axes.add("cols")
+    ok = ok and axes == {"rows", "cols"}
     ctx.ob(rule, construct(fq, "quantitative: only better-ranked, still kept features are compared (upper triangle, dropped rows removed)"), ok, loc(fq))
     corr = [c for c in calls(fq, "corr")]
     ok = len(corr) == 1 and unparse(corr[0].func.value) == "X[prefered_order]" and unparse(corr[0].args[0]) == "corr_measure"
